@@ -177,7 +177,7 @@ def r2(ctx):
                                             ok = True
             ctx.check("NSE.WhoIsRouterToNetwork:answer#%d:not-through-asking-network" % k, ok, where(m, x),
                       "I-Am-Router-To-Network is answered although the network may be reached through the adapter the question came from: the asker then sends its traffic to this router, which sends it straight back")
-    if k < 3:
+    if k < 2:
         raise ShapeError("WhoIsRouterToNetwork: only %d answers found" % k)
 
 
@@ -416,3 +416,9 @@ def r7(ctx):
     c19.r2(ctx)
     c19.r3(ctx)
     c19.r5(ctx)
+
+
+@rule("C06.R8", "the adapter a packet leaves through is never chosen by a router record's own (never renumbered) source-network field", floor=2, engines="E0 who-reads (shared with C19.R6)")
+def r8(ctx):
+    from .c19 import record_snet_not_a_key
+    record_snet_not_a_key(ctx)
